@@ -299,7 +299,7 @@ class C02(core.Prop):
     pid = 'C02'
     lean_modules = ['TddaVerif.Props.C02']
     theorems = ['TddaVerif.Props.C02.' + t for t in ['verify_eq_spec', 'verify_flag_irrelevant', 'missing_field_fails',
-        'null_value_passes', 'fuzzDown_eq', 'fuzzUp_eq', 'totals_exact', 'verdicts_eq', 'null_constraint_inert']]
+        'null_value_passes', 'fuzzDown_eq', 'fuzzUp_eq', 'totals_exact', 'verdicts_eq', 'null_constraint_inert', 'mark_determines_verdict', 'report_shows', 'tie_marks_distinct']]
     quick_n = 800
     thorough_n = 30000
     rule = ('cases: frames of 1..3 columns x 0..10 rows over every recognised family, with a boundary-directed '
@@ -316,6 +316,10 @@ class C02(core.Prop):
 
     def revive(self, case):
         return cx.revive(case)
+
+    def translate(self):
+        import translate
+        return translate.regenerate(['Report'])
 
     def corpus(self):
         return [
@@ -400,7 +404,36 @@ class C02(core.Prop):
         for mc, col in zip(frame, case['frame']['cols']):
             if mc['ftype'] == 'real':
                 ops.append({'op': 'cx.calc', 'col': mc})
-        return ops
+        return ops + [op for op, _ in self._reports(case)]
+
+    REPORTS = [('all', False), ('all', True), ('fields', False), ('fields', True), ('records', True)]
+
+    def _reports(self, case):
+        """[(model op, implementation text)]: the printed report of the real verification in every mode and mark set; the
+        model renders the same verdicts (the verdicts themselves are the business of cx.verify)"""
+        st, v = self._run(case, False)
+        if st == 'exc':
+            return []
+        fields = []
+        for name, fr in v.fields.items():
+            if not isinstance(name, str):
+                return []
+            fields.append({'name': name, 'failures': int(fr.failures), 'passes': int(fr.passes),
+                           'verdicts': [[k, None if x is None else bool(x)] for k, x in fr.items()]})
+        out = []
+        saved = (v.report, v.ascii)
+        try:
+            for mode, asc in self.REPORTS:
+                v.report, v.ascii = mode, asc
+                try:
+                    text = str(v)
+                except Exception as e:   # noqa
+                    text = {'exc': type(e).__name__}
+                out.append(({'op': 'c02.report', 'mode': mode, 'ascii': asc, 'fields': fields, 'passes': int(v.passes),
+                             'failures': int(v.failures)}, text))
+        finally:
+            v.report, v.ascii = saved
+        return out
 
     def _ordered(self, case):
         """fields in the order verify() reports them: missing fields first, then frame order"""
@@ -431,10 +464,13 @@ class C02(core.Prop):
                     out.append(PandasConstraintCalculator(df).calc_non_integer_values_count(col['name']))
                 except Exception as e:
                     out.append({'exc': type(e).__name__})
-        return out
+        return out + [text for _, text in self._reports(case)]
 
     def canon_model(self, case, outs):
         # verdicts keyed by kind (the implementation reports them in its preferred key order)
+        nrep = len(self._reports(case))
+        reports = [o['ok'] if 'ok' in o else {'exc': o.get('exc')} for o in (outs[len(outs) - nrep:] if nrep else [])]
+        outs = outs[:len(outs) - nrep] if nrep else outs
         res = []
         ordered = self._ordered(case)
         for o in outs[2:]:
@@ -456,7 +492,7 @@ class C02(core.Prop):
             for (name, ks), f in zip(ordered, v['fields']):
                 fields.append([f[0], {k['kind']: b for k, b in zip(ks, f[1])}, f[2], f[3]])
             res.append({'passes': v['passes'], 'failures': v['failures'], 'fields': fields})
-        return res + tail
+        return res + tail + reports
 
     def nontrivial_key(self, case):
         for ks in case['constraints'].values():
